@@ -155,6 +155,13 @@ package nexus
 
 //@ func (n *ipNet) Size
 //@   modifies nothing
+//@   ensures bits == 32 && 0 <= ones && ones <= 8 * len(n.Mask)
+
+//@ loop ipNet.Size#1
+//@   invariant bits == 32 && 0 <= ones && ones <= 8 * ridx
+
+//@ loop ipNet.Size#2
+//@   invariant bits == 32 && -1 <= i && i <= 7 && 0 <= ones && ones <= 8 * ridx + (7 - i)
 
 //@ func formatIP
 //@   modifies nothing
@@ -173,8 +180,12 @@ package nexus
 //@   requires pool != nil
 //@   modifies nothing
 //@   ensures err == nil ==> forall id string :: old(id in c.subscriberCache) && id != subscriberID && old(c.subscriberCache[id]) != nil && old(c.subscriberCache[id].IPv4Addr) != "" ==> old(c.subscriberCache[id].IPv4Addr) != result
+// range: the host offset of the returned address lies in 1..numHosts (never the network or the
+// broadcast address of the pool); offset and numHosts are the function's own locals
+//@   ensures err == nil ==> 1 <= offset && offset <= numHosts
 
 //@ loop Client.allocateFromPool#1
+//@   invariant 0 <= start && start < numHosts && 0 <= probe
 //@   invariant used != nil && forall id string :: old(id in c.subscriberCache) && id != subscriberID && old(c.subscriberCache[id]) != nil && old(c.subscriberCache[id].IPv4Addr) != "" ==> old(c.subscriberCache[id].IPv4Addr) in used
 
 //@ func (c *Client) GetSubscriber
